@@ -583,7 +583,11 @@ def run(ctx):
     ctx.rule('C01.ATOMIC', atomic, 6)
     from . import c03 as _c03
     ctx.rule('C01.MEMO', lambda: _c03.rule_memo(ctx, 'C01.MEMO'), 12)
-    ctx.rule('C01.LOGICALFILE', lambda: c04.rule_logical_file(ctx, 'C01'), 2)
+    ctx.rule('C01.LOGICALFILE', lambda: c04.rule_logical_file(ctx, 'C01') + c04.rule_logical_file_stateless(ctx, 'C01'), 5)
     ctx.rule('C01.FSMETA', lambda: c04.rule_file_offsets(ctx, 'C01'), 5)
     from .flushall import rule_flushall
     ctx.rule('C01.FLUSHALL', lambda: rule_flushall(ctx, 'C01'), 3)
+    ctx.rule('C01.PREFIXSCAN', lambda: c04.rule_storage_prefix(ctx, 'C01'), 2)
+    # a chain reached through reorganisations is still 'any valid chain indexed up to h'
+    from . import c03 as _c03all
+    _c03all.run(ctx)
